@@ -6,12 +6,11 @@ import (
 	"fmt"
 	"net/http"
 	"os"
+	"os/exec"
 	"strings"
 	"sync"
 	"testing"
 	"time"
-
-	kit "github.com/bluenviron/mediamtx/internal/verifkit"
 )
 
 // TestVerifC40RegressAPIRestartDeadlock pins the deadlock found by TestVerifC40Programs (plain Go, no rapid):
@@ -23,7 +22,7 @@ import (
 // The window is real-time dependent, so the test repeats the pair a number of times; a hang is detected by a bound
 // (40 s) that is far beyond any timer involved (HTTP shutdown timeout 2 s).
 func TestVerifC40RegressAPIRestartDeadlock(t *testing.T) {
-	if kit.Known(c40KnownAPIRestart) {
+	if c40Known(c40KnownAPIRestart) {
 		t.Skip("listed as known finding")
 	}
 	w, err := c40StartWorld()
@@ -77,3 +76,254 @@ func TestVerifC40RegressAPIRestartDeadlock(t *testing.T) {
 	os.RemoveAll(w.recDir)
 }
 
+// TestVerifC40RegressStreamCloseRace pins the data race found by TestVerifC40Programs (race build only):
+// stream.(*Stream).Close() reads s.rtspStream / s.rtspsStream without s.mutex (path goroutine, when the publisher
+// leaves or the path closes) while stream.(*Stream).RTSPStream() writes it under s.mutex (RTSP connection goroutine
+// serving DESCRIBE or SETUP of a reader). The two goroutines below never synchronise in the direction
+// reader -> closer, exactly like an RTSP reader and an unrelated publisher in production: the publisher goroutine
+// attaches, announces it, sleeps and detaches; the reader goroutine sends DESCRIBE in between.
+func TestVerifC40RegressStreamCloseRace(t *testing.T) {
+	if !c40RaceEnabled {
+		t.Skip("needs a -race build")
+	}
+	if c40Known(c40KnownStreamClose) {
+		t.Skip("listed as known finding")
+	}
+	_, off := c40RaceLog(0)
+	before := c40RaceErrors()
+	for round, pause := range []time.Duration{400 * time.Millisecond, 1500 * time.Millisecond, 5 * time.Second} {
+		w, err := c40StartWorld()
+		if err != nil {
+			fmt.Fprintf(os.Stderr, "VERIF-INCONCLUSIVE: could not start a Core: %v\n", err)
+			t.Fatalf("harness: %v", err)
+		}
+		attached := make(chan struct{})
+		var wg sync.WaitGroup
+		wg.Add(2)
+		go func() { // publisher: no information ever flows from the reader to this goroutine
+			defer wg.Done()
+			p, err2 := vcAttachPub(w.pm.Load(), "s0", "pub")
+			close(attached)
+			if err2 != nil {
+				return
+			}
+			p.Write("x")
+			time.Sleep(pause)
+			p.Detach() // path goroutine: setNotAvailable -> Stream.Close()
+		}()
+		described := false
+		go func() { // RTSP reader: DESCRIBE -> conn.onDescribe -> Stream.RTSPStream()
+			defer wg.Done()
+			<-attached
+			c := w.newRTSPClient()
+			if c.Start() != nil {
+				return
+			}
+			_, _, err2 := c.Describe(w.rtspURL("s0"))
+			described = err2 == nil
+			c.Close()
+		}()
+		wg.Wait()
+		w.tr.CloseIdleConnections()
+		w.c.Stop()
+		os.RemoveAll(w.recDir)
+		if n := c40RaceErrors(); n != before {
+			txt, _ := c40RaceLog(off)
+			if txt == "" {
+				txt = "(report is in the log above)"
+			}
+			fmt.Fprintf(os.Stderr, "%s\n", txt)
+			t.Fatalf("round %d: fake publisher attached to s0, RTSP DESCRIBE of s0, publisher detached %v after attaching: "+
+				"the race detector reported %d data race(s); accesses by: %s\n%s", round, pause, n-before, c40ClassifyRace(txt), txt)
+		}
+		if described {
+			break // the DESCRIBE was served while the stream existed and nothing was reported
+		}
+	}
+}
+
+// TestVerifC40RegressMetricsScrapeDuringRestart pins the crash found by TestVerifC40Programs: pathManager.close()
+// calls metrics.SetPathManager(nil) and the metrics server stays up (until a new path manager registers, or until
+// the end of the shutdown); a scrape in that window runs `pathManager.APIPathsList()` on a nil interface
+// (metrics.go, onMetrics) and handlerExitOnPanic turns the panic into os.Exit(1): the whole server dies.
+// Because the defect kills the process, the scenario runs in a child process (this test binary re-executed).
+func TestVerifC40RegressMetricsScrapeDuringRestart(t *testing.T) {
+	if os.Getenv("C40_CHILD") == "metrics" {
+		c40ChildMetricsScrape()
+		return
+	}
+	if c40Known(c40KnownMetricsNil) {
+		t.Skip("listed as known finding")
+	}
+	cmd := exec.Command(os.Args[0], "-test.run", "^TestVerifC40RegressMetricsScrapeDuringRestart$", "-test.count=1", "-test.timeout=600s")
+	cmd.Env = append(os.Environ(), "C40_CHILD=metrics", "VERIF_COVERAGE_OUT=", "GORACE=")
+	outb, err := cmd.CombinedOutput()
+	out := string(outb)
+	if err == nil {
+		return // survived every round
+	}
+	if strings.Contains(out, "metrics.(*Metrics).onMetrics") && strings.Contains(out, "nil pointer dereference") {
+		i := strings.Index(out, "panic:")
+		tail := out[i:]
+		if len(tail) > 2500 {
+			tail = tail[:2500]
+		}
+		t.Fatalf("GET /metrics while an API edit (writeQueueSize) made the Core recreate the path manager: the server process exited (%v)\n%s", err, tail)
+	}
+	if len(out) > 4000 {
+		out = out[len(out)-4000:]
+	}
+	fmt.Fprintf(os.Stderr, "VERIF-INCONCLUSIVE: child process failed for another reason: %v\n%s\n", err, out)
+	t.Fatalf("child failed: %v", err)
+}
+
+func c40ChildMetricsScrape() {
+	w, err := c40StartWorld()
+	if err != nil {
+		fmt.Fprintf(os.Stderr, "child: no core: %v\n", err)
+		os.Exit(3)
+	}
+	stop := make(chan struct{})
+	var wg sync.WaitGroup
+	for k := 0; k < 4; k++ {
+		wg.Add(1)
+		go func() {
+			defer wg.Done()
+			for {
+				select {
+				case <-stop:
+					return
+				default:
+				}
+				vcHTTP(w.hc, http.MethodGet, w.metBase+"/metrics", nil, nil) //nolint:errcheck
+			}
+		}()
+	}
+	for i := 0; i < 40; i++ {
+		// one client, strictly sequential edits (each one waited for): only the scrapes are concurrent
+		w.api(http.MethodPatch, "/v3/config/global/patch", fmt.Sprintf(`{"writeQueueSize":%d}`, 256<<(i%3))) //nolint:errcheck
+		w.barrier()
+	}
+	close(stop)
+	wg.Wait()
+	w.tr.CloseIdleConnections()
+	w.c.Stop()
+	os.RemoveAll(w.recDir)
+}
+
+// TestVerifC40RegressRecordHookRace pins a data race found by TestVerifC40Programs (race build only):
+// the recorder callbacks installed by path.startRecording() read pa.conf.RunOnRecordSegmentCreate / ...Complete on
+// the recorder's goroutine without pa.confMutex, path.doReloadConf() replaces pa.conf on the path goroutine.
+// Stand-alone pathManager, no network: the reloading goroutine gets no information from the recorder.
+func TestVerifC40RegressRecordHookRace(t *testing.T) {
+	if !c40RaceEnabled {
+		t.Skip("needs a -race build")
+	}
+	if c40Known(c40KnownRecordHook) {
+		t.Skip("listed as known finding")
+	}
+	dir := vcTempDir("c40rh")
+	defer os.RemoveAll(dir)
+	yaml := func(del string) string {
+		return fmt.Sprintf("  p:\n    record: yes\n    recordPath: %s/%%path/%%Y-%%m-%%d_%%H-%%M-%%S-%%f\n"+
+			"    recordPartDuration: 100ms\n    recordSegmentDuration: 1h\n    recordDeleteAfter: %s\n", dir, del)
+	}
+	// both configurations are loaded before anything runs (loading reads files; file reads synchronise with
+	// earlier writes in the race detector's model and would hide the race)
+	confA, err := vcPathConfs(yaml("1h"))
+	if err != nil {
+		t.Fatalf("harness: %v", err)
+	}
+	confB, err := vcPathConfs(yaml("2h"))
+	if err != nil {
+		t.Fatalf("harness: %v", err)
+	}
+	_, off := c40RaceLog(0)
+	before := c40RaceErrors()
+	pm := vcNewPM(confA, vcPMOpts{})
+	var wg sync.WaitGroup
+	wg.Add(1)
+	go func() {
+		defer wg.Done()
+		time.Sleep(2 * time.Second)
+		pm.pathManager.ReloadPathConfs(confB) // hot reload: path.doReloadConf writes pa.conf
+	}()
+	pub, err := vcAttachPub(pm.pathManager, "p", "pub")
+	if err != nil {
+		t.Fatalf("harness: %v", err)
+	}
+	for i := 0; i < 40; i++ { // 800 ms of audio: the first part closes, the segment file is created, OnSegmentCreate runs
+		pub.Write("x")
+	}
+	wg.Wait()
+	pm.Barrier()
+	time.Sleep(100 * time.Millisecond)
+	pub.Detach()
+	pm.Close()
+	if n := c40RaceErrors(); n != before {
+		txt, _ := c40RaceLog(off)
+		if txt == "" {
+			txt = "(report is in the log above)"
+		}
+		fmt.Fprintf(os.Stderr, "%s\n", txt)
+		t.Fatalf("path with record: yes, publisher wrote 800 ms of LPCM, then a hot reload (recordDeleteAfter 1h -> 2h): "+
+			"the race detector reported %d data race(s); accesses by: %s\n%s", n-before, c40ClassifyRace(txt), txt)
+	}
+}
+
+// TestVerifC40RegressKickRace pins, as far as a real-time scenario can, the data races found by
+// TestVerifC40Programs between rtsp.(*Server).APISessionsKick - which removes the session from the server's map
+// while holding only the read lock and runs session.onClose() on the API goroutine - and the handlers of the same
+// session running on its connection goroutine (onRecord/onPlay write s.path, s.subStream, ...; the session's own
+// OnSessionClose runs onClose a second time). A kicker keeps kicking whatever session exists while a publisher
+// performs ANNOUNCE/SETUP/RECORD 40 times. Not deterministic: passing does not mean the race is gone.
+func TestVerifC40RegressKickRace(t *testing.T) {
+	if !c40RaceEnabled {
+		t.Skip("needs a -race build")
+	}
+	if c40Known(c40KnownKick) {
+		t.Skip("listed as known finding")
+	}
+	w, err := c40StartWorld()
+	if err != nil {
+		fmt.Fprintf(os.Stderr, "VERIF-INCONCLUSIVE: could not start a Core: %v\n", err)
+		t.Fatalf("harness: %v", err)
+	}
+	_, off := c40RaceLog(0)
+	before := c40RaceErrors()
+	stop := make(chan struct{})
+	var wg sync.WaitGroup
+	wg.Add(1)
+	go func() {
+		defer wg.Done()
+		ar := &c40ActorRun{kind: "api"}
+		for {
+			select {
+			case <-stop:
+				return
+			default:
+			}
+			ar.execAPI(w, c40Step{Op: "kick"})
+		}
+	}()
+	ar := &c40ActorRun{kind: "rtsppub"}
+	for i := 0; i < 40 && c40RaceErrors() == before; i++ {
+		ar.execRTSP(w, c40Step{Op: "publish", Path: "s0"})
+		ar.execRTSP(w, c40Step{Op: "writepkt", Arg: 3})
+	}
+	ar.cleanup()
+	close(stop)
+	wg.Wait()
+	w.tr.CloseIdleConnections()
+	w.c.Stop()
+	os.RemoveAll(w.recDir)
+	if n := c40RaceErrors(); n != before {
+		txt, _ := c40RaceLog(off)
+		if txt == "" {
+			txt = "(report is in the log above)"
+		}
+		fmt.Fprintf(os.Stderr, "%s\n", txt)
+		t.Fatalf("RTSP publisher handshakes while every session is kicked through the API: "+
+			"the race detector reported %d data race(s); accesses by: %s\n%s", n-before, c40ClassifyRace(txt), txt)
+	}
+}
